@@ -98,7 +98,7 @@ def install():
             # "#k": the k-th optimiser call of the run fails, whatever it fits (a fit that fails after
             # earlier ones succeeded: second pass of a two-pass analysis, a later combination, ...)
             sim.minimize_calls = getattr(sim, "minimize_calls", 0) + 1
-            if f"#{sim.minimize_calls}" in sim.fail_set:
+            if f"#{sim.minimize_calls}" in sim.fail_set or any(x.startswith("#>=") and sim.minimize_calls >= int(x[3:]) for x in sim.fail_set):
                 sim.fired["F4"] += 1
                 raise simpool.InjectedFault(f"injected fit failure for optimiser call #{sim.minimize_calls}")
             ident = None
